@@ -21,6 +21,7 @@ SCENARIOS = {
     "C01": ("gtsim.scenarios.history", {"prop": "C01"}),
     "C19": ("gtsim.scenarios.history", {"prop": "C19"}),
     "C11": ("gtsim.scenarios.bayes", {"prop": "C11"}),
+    "C15": ("gtsim.scenarios.history", {"prop": "C15"}),
 }
 
 RUNS = {  # property -> (quick runs, thorough runs)
@@ -29,6 +30,7 @@ RUNS = {  # property -> (quick runs, thorough runs)
     "C01": (1200, 40000),
     "C19": (800, 25000),
     "C11": (1500, 40000),
+    "C15": (1200, 40000),
 }
 
 PER_RUN_TIMEOUT = 600
@@ -195,7 +197,7 @@ def run_check(prop, tier="quick", base_seed=0, runs=None, workers=None, wall=Non
         print("HARNESS-ERROR worker process died (per-run timeout or crash)", file=out, flush=True)
         status = 2
     finally:
-        ex.shutdown(wait=False, cancel_futures=True)
+        ex.shutdown(wait=True, cancel_futures=True)
     agg.write(time.time() - t0, status)
     print(f"gtsim: done status={status} runs={agg.n} wall={time.time()-t0:.1f}s nontrivial_distinct={len(agg.sigs)} "
           f"discarded={agg.discarded} known_hits={dict(agg.known_hits)}", file=out, flush=True)
